@@ -31,9 +31,9 @@ def shards(tier):
                 for L in (2, 3, 4):
                     out.append(dict(part="op", geo=g, dev=dev, op=op, L=L))
     for cols in (1, 2, 9, 10, 12, 24, 99):
-        out.append(dict(part="tables", kind="plate", cols=cols))
+        out.append(dict(part="tables", kind="plate", cols=cols, concrete=True))
     for cols in (1, 2, 12, 24):
-        out.append(dict(part="tables", kind="trough", cols=cols))
+        out.append(dict(part="tables", kind="trough", cols=cols, concrete=True))
     return out
 
 
